@@ -4,6 +4,8 @@ one reply per line on stdout.  Imports only core-Lean models, so it is a native 
 -/
 import FfcxModel.Driver.Loop
 import FfcxModel.Driver.Exec
+import FfcxModel.Driver.Simp
+import FfcxModel.Driver.Static
 
 open Ffcx
 
@@ -13,6 +15,11 @@ def dispatch (req : Sexp) : Except String Sexp :=
     match cmd with
     | "ping" => .ok (.atom "pong")
     | "exec" => Driver.handleExec args
+    | "simp" => Driver.handleSimp args
+    | "pure" => Driver.handlePure args
+    | "mentions" => Driver.handleMentions args
+    | "floatprod" => Driver.handleFloatProd args
+    | "miglobal" => Driver.handleMiGlobal args
     | _ => .error s!"unknown command {cmd}"
   | _ => .error "request must be a list"
 
